@@ -674,6 +674,11 @@ func doFrame(c *hx.Ctx, in input) {
 			ckOK = bytes.Equal(checksum4(payload), stream[20:24])
 		}
 	}
+	for _, k := range embKinds {
+		if hCmd == k {
+			in.Emb = true // embedded core/types object: compared by the oracle only
+		}
+	}
 	var out string
 	switch {
 	case panicked:
